@@ -9,6 +9,7 @@ import SkNet.Lemmas.TopologyReduce
 import SkNet.Lemmas.TopologyClustering
 import SkNet.Lemmas.TopologyCliquesTop
 import SkNet.Lemmas.TopologyCore
+import SkNet.Lemmas.TopologyCoreSpec
 import Mathlib.Tactic.Ring
 import Mathlib.Tactic.FieldSimp
 import Mathlib.Algebra.Order.Field.Rat
@@ -99,6 +100,11 @@ theorem reduction_any_two_schedules (f : Nat → Nat) (n init : Nat) (s s' : Sch
 /-- a schedule with three threads, iterations out of order, combined as `(t2 + t0) + t1` -/
 example : Schedule.Valid ⟨[[4, 0], [1, 3, 5], [2]], .node (.node (.leaf 2) (.leaf 0)) (.leaf 1)⟩ 6 :=
   Schedule.valid_of_validB _ _ (by decide)
+
+/-- OpenMP's `schedule(static)` — the schedule the model runs for the `run` lines of the harness — is a valid
+    schedule for every number of iterations and every number of threads (so the hypotheses of the theorems of this
+    section are met at every size) -/
+theorem static_schedule_valid (n t : Nat) : (staticSchedule n t).Valid n := staticSchedule_valid n t
 
 /-- ★ parallel = sequential: `count_triangles(adjacency, parallelize=True)` returns the sequential count under
     every schedule of the `prange` loop (any number of threads). -/
@@ -239,6 +245,35 @@ theorem coreLoop_fuel (n : Nat) (adj : Nat → Nat → Bool) (hsym : ∀ a b, ad
   obtain ⟨l, h, _⟩ := computeCore_spec n adj hsym
   rw [h]; exact Option.some_ne_none l
 
+/-- the executable specification of the spec lines (`kCore`: exhaustive pruning to a fixed point) is the
+    definition: a node is in the `k`-core iff it lies in a node set whose members all have `≥ k` neighbours inside -/
+theorem kCore_exact (n : Nat) (adj : Nat → Nat → Bool) (k v : Nat) :
+    (kCore n adj k).getD v false = true ↔ InCore n adj k v := kCore_spec n adj k v
+
+/-- `coreNumberSpec` (what `c11.spec_core` evaluates on the implementation's output) is the core number -/
+theorem coreNumberSpec_exact (n : Nat) (adj : Nat → Nat → Bool) (v : Nat) (hv : v < n) :
+    IsCoreNumber n adj v (coreNumberSpec n adj v) := coreNumberSpec_isCoreNumber n adj v hv
+
+/-- ★ `core_exact`, executable form: `get_core_decomposition` returns exactly the table of `coreNumberSpec` -/
+theorem core_exact_spec (n : Nat) (adj : Nat → Nat → Bool) (hsym : ∀ a b, adj a b = adj b a) :
+    computeCore (csrOfEdge n adj).indptr (csrOfEdge n adj).indices =
+      some (tab n fun v => (coreNumberSpec n adj v : Int)) := by
+  obtain ⟨labels, h1, h2, h3⟩ := computeCore_spec n adj hsym
+  rw [h1]
+  congr 1
+  apply List.ext_getElem
+  · rw [h2, tab_length]
+  · intro i hi1 hi2
+    have hi : i < n := by rw [← h2]; exact hi1
+    obtain ⟨c, hc1, hc2⟩ := h3 i hi
+    have hu := isCoreNumber_unique n adj i c _ hc2 (coreNumberSpec_isCoreNumber n adj i hi)
+    have e1 : labels[i] = labels.getD i 0 := by
+      rw [List.getD_eq_getElem?_getD, List.getElem?_eq_getElem hi1]; rfl
+    have e2 : (tab n fun v => (coreNumberSpec n adj v : Int))[i] =
+        (tab n fun v => (coreNumberSpec n adj v : Int)).getD i 0 := by
+      rw [List.getD_eq_getElem?_getD, List.getElem?_eq_getElem hi2]; rfl
+    rw [e1, e2, hc1, tab_getD, if_pos hi, hu]
+
 /-- ★ `count_cliques` end to end (core values, `argsort`, `get_dag`, box, kernel): the number of `k`-cliques -/
 theorem count_cliques_exact (n : Nat) (adj : Nat → Nat → Bool) (hsym : ∀ a b, adj a b = adj b a) (k : Nat)
     (hk : 2 ≤ k) :
@@ -276,5 +311,43 @@ theorem clustering_coefficient_eq (n : Nat) (val : Nat → Nat → Rat) (s : Opt
     field_simp
 
 example : ∀ sch, (none : Option Schedule) = some sch → sch.Valid 5 := by intro sch h; cases h
+
+/-! ### the property, assembled -/
+
+/-- the 0/1 adjacency matrix of an adjacency predicate -/
+def indicator (adj : Nat → Nat → Bool) (i j : Nat) : Rat := if adj i j then 1 else 0
+
+/-- **C11 on the model**: for every undirected graph (any number of nodes `n`, any symmetric adjacency predicate)
+    `count_triangles` is the number of 3-cliques, sequentially and under every schedule of the parallel loop
+    (any number of threads); `count_cliques(k)` is the number of `k`-cliques for every `k ≥ 2`;
+    `get_core_decomposition` is the core number of every node; `get_clustering_coefficient` is three times the
+    triangle count over the number of connected triples (`nan` when there is none), sequentially or in parallel. -/
+theorem C11_model (n : Nat) (adj : Nat → Nat → Bool) (hsym : ∀ a b, adj a b = adj b a) :
+    countTriangles n n (indicator adj) none = .ok (cliqueCount n adj 3) ∧
+    (∀ s : Schedule, s.Valid n → countTriangles n n (indicator adj) (some s) = .ok (cliqueCount n adj 3)) ∧
+    (∀ k, 2 ≤ k → countCliques n (csrOfEdge n adj) adj k = .ok (some (cliqueCount n adj k))) ∧
+    computeCore (csrOfEdge n adj).indptr (csrOfEdge n adj).indices =
+      some (tab n fun v => (coreNumberSpec n adj v : Int)) ∧
+    (∀ v, v < n → IsCoreNumber n adj v (coreNumberSpec n adj v)) ∧
+    clusteringCoefficient n n (indicator adj) none = .ok (clusteringSpec n adj) ∧
+    (∀ s : Schedule, s.Valid n → clusteringCoefficient n n (indicator adj) (some s) = .ok (clusteringSpec n adj)) := by
+  have hse : symEdge (indicator adj) = adj := by
+    funext i j; exact symEdge_indicator adj hsym i j
+  refine ⟨triangles_exact_undirected n adj hsym, ?_, fun k hk => count_cliques_exact n adj hsym k hk,
+    core_exact_spec n adj hsym, fun v hv => coreNumberSpec_exact n adj v hv, ?_, ?_⟩
+  · intro s hs
+    rw [triangles_parallel_exact n (indicator adj) s hs, hse]
+  · rw [clustering_coefficient_eq n (indicator adj) none (fun sch h => by cases h), hse]
+  · intro s hs
+    rw [clustering_coefficient_eq n (indicator adj) (some s) (fun sch h => by cases h; exact hs), hse]
+
+/-- a graph the theorem applies to: the 5-cycle with a chord -/
+example : ∀ a b, (fun a b : Nat => (a + 1 = b ∨ b + 1 = a ∨ (a = 0 ∧ b = 4) ∨ (a = 4 ∧ b = 0) ∨
+    (a = 0 ∧ b = 2) ∨ (a = 2 ∧ b = 0) : Bool)) a b =
+    (fun a b : Nat => (a + 1 = b ∨ b + 1 = a ∨ (a = 0 ∧ b = 4) ∨ (a = 4 ∧ b = 0) ∨
+    (a = 0 ∧ b = 2) ∨ (a = 2 ∧ b = 0) : Bool)) b a := by
+  intro a b
+  simp only [decide_eq_decide]
+  omega
 
 end SkNet.C11
